@@ -92,6 +92,7 @@ class Ctx:
         self.skipped_for_time = 0
         self.notes = []
         self.exhaustive = None
+        self.best = None
 
     # -- bookkeeping used by oracles --------------------------------------------------
     def case(self, case, nontrivial, labels=(), sample=None):
@@ -205,11 +206,54 @@ def _record_violation(ctx, v, case):
     ctx.suppressed.add(v.key)
 
 
+def safe_run(ctx, sub, case):
+    """run the oracle; an exception that escapes from inside the library while the harness
+    was performing an operation it expects to succeed is a violation (keyed by where it was
+    raised), anything else is a harness error and propagates"""
+    try:
+        return sub.run(ctx, case)
+    except (Violation, env.HarnessError):
+        raise
+    except Exception as e:  # noqa
+        where = lib_frame(e)
+        if where is None:
+            raise
+        ctx.fail(f"unexpected-exception/{type(e).__name__}@{where}", f"library raised {type(e).__name__}: {str(e)[:200]}")
+
+
+class _Best:
+    """smallest failing case seen during one Hypothesis run (used if the shrinker itself breaks)"""
+
+    def __init__(self):
+        self.v = None
+        self.case = None
+        self.size = None
+
+    def offer(self, v, case):
+        n = len(jdump(case))
+        if self.size is None or n <= self.size:
+            self.v, self.case, self.size = v, case, n
+
+
+def _finish_round(ctx, best, exc):
+    """exc: the exception that ended the Hypothesis run"""
+    if isinstance(exc, Violation):
+        _record_violation(ctx, exc, ctx.current)
+        return
+    if best.v is not None:  # Hypothesis failed internally (e.g. in its shrinker) after a real failure was seen
+        ctx.notes.append(f"hypothesis internal error after a failure was found ({type(exc).__name__}: {str(exc)[:80]}); reporting the smallest case seen")
+        _record_violation(ctx, best.v, best.case)
+        return
+    raise exc
+
+
 def drive_given(ctx, sub):
     from hypothesis import given, seed
 
     n = max(1, sub.n(ctx.tier) // ctx.nshards)
     for rnd in range(MAX_ROUNDS):
+        best = _Best()
+
         @seed(derive_seed(ctx.seed, ctx.prop, sub.name, ctx.shard, rnd))
         @_hyp_settings(n)
         @given(sub.strategy(ctx.tier))
@@ -217,29 +261,35 @@ def drive_given(ctx, sub):
             if ctx.out_of_time():
                 return
             ctx.current = case
-            sub.run(ctx, case)
+            try:
+                safe_run(ctx, sub, case)
+            except Violation as v:
+                best.offer(v, case)
+                raise
 
         try:
             t()
-        except Violation as v:
-            _record_violation(ctx, v, ctx.current)
+        except Exception as e:  # noqa
+            _finish_round(ctx, best, e)
             continue
         break
 
 
 def drive_machine(ctx, sub):
     """sub.machine(ctx, tier) -> RuleBasedStateMachine subclass that keeps its history in
-    ctx.current (a JSON-able dict) and whose steps call the same interpreter as sub.run."""
+    ctx.current (a JSON-able dict) and whose steps call the same interpreter as sub.run.
+    The machine class must call ctx.offer_failure(v) ... handled via ctx.best."""
     from hypothesis import seed
     from hypothesis.stateful import run_state_machine_as_test
 
     n = max(1, sub.n(ctx.tier) // ctx.nshards)
     for rnd in range(MAX_ROUNDS):
+        ctx.best = _Best()
         M = seed(derive_seed(ctx.seed, ctx.prop, sub.name, ctx.shard, rnd))(sub.machine(ctx, ctx.tier))
         try:
             run_state_machine_as_test(M, settings=_hyp_settings(n, sub.nsteps(ctx.tier)))
-        except Violation as v:
-            _record_violation(ctx, v, ctx.current)
+        except Exception as e:  # noqa
+            _finish_round(ctx, ctx.best, e)
             continue
         break
 
@@ -255,7 +305,7 @@ def drive_enum(ctx, sub):
             continue
         ctx.current = case
         try:
-            sub.run(ctx, case)
+            safe_run(ctx, sub, case)
         except Violation as v:
             _record_violation(ctx, v, case)
     ctx.exhaustive = complete
@@ -310,7 +360,7 @@ def replay_file(path, known=()):
     sub = registry.get_sub(doc["property"], doc["subcheck"])
     ctx = Ctx(doc["property"], doc["subcheck"], "quick", 0, known=known)
     try:
-        sub.run(ctx, doc["case"])
+        safe_run(ctx, sub, doc["case"])
     except Violation as v:
         return v, ctx
     return None, ctx
